@@ -64,6 +64,12 @@ struct MapWork<T>(Child, Option<T>);
 impl<T: Unpin> Future for MapWork<T> { type Output = T;
     fn poll(mut self: Pin<&mut Self>, cx: &mut Context<'_>) -> Poll<T> {
         match self.0.step(cx) { Ans::Ready | Ans::Fail(_) => Poll::Ready(self.1.take().unwrap()), Ans::Panic => panic!("scripted"), _ => Poll::Pending } } }
+/// the future of a fallible map closure: collect::<Result<Vec<_>, E>>() consumes these
+struct RMapWork<T>(Child, Option<T>);
+impl<T: ItemLike + Unpin> Future for RMapWork<T> { type Output = Result<T, u64>;
+    fn poll(mut self: Pin<&mut Self>, cx: &mut Context<'_>) -> Poll<Result<T, u64>> {
+        match self.0.step(cx) { Ans::Ready => Poll::Ready(Ok(self.1.take().unwrap())), Ans::Fail(e) => { self.1.take().unwrap().consume(); Poll::Ready(Err(e)) }
+            Ans::Panic => panic!("scripted"), _ => Poll::Pending } } }
 struct FeWork(Child);
 impl Future for FeWork { type Output = ();
     fn poll(mut self: Pin<&mut Self>, cx: &mut Context<'_>) -> Poll<()> {
@@ -90,6 +96,11 @@ fn map_cl<T: ItemLike + Unpin + 'static>(sh: &Sh) -> impl Fn(T) -> MapWork<T> + 
     let sh = sh.clone();
     move |x: T| { let j = x.id() as usize; log(&format!("Cm.{j}({})", x.show())); let n = sh.borrow().n; MapWork(Child::new(1 + n + j, &sh), Some(x)) }
 }
+fn rmap_cl<T: ItemLike + Unpin + 'static>(sh: &Sh) -> impl Fn(T) -> RMapWork<T> + Clone + 'static {
+    let sh = sh.clone();
+    move |x: T| { let j = x.id() as usize; log(&format!("Cm.{j}({})", x.show())); let n = sh.borrow().n; RMapWork(Child::new(1 + n + j, &sh), Some(x)) }
+}
+fn show_res<T: ItemLike>(r: Result<Vec<T>, u64>) -> String { match r { Ok(v) => show_vec(v), Err(e) => format!("E:F{e}") } }
 fn fe_cl<T: ItemLike + 'static>(sh: &Sh) -> impl Fn(T) -> FeWork + Clone + 'static {
     let sh = sh.clone();
     move |x: T| { let j = x.id() as usize; log(&format!("Ct.{j}({})", x.show())); x.consume(); FeWork(Child::new(1 + j, &sh)) }
@@ -113,6 +124,18 @@ macro_rules! terminal {
 }
 fn build(stack: &str, term: &str, take: usize, lim: Option<NonZeroUsize>, sh: &Sh) -> PollFn {
     let src = Src(Child::new(0, sh));
+    if term == "rcol" {
+        // collect into Result<Vec<_>, E>: the map closure of the stack is the fallible one
+        return match stack {
+            "map" => fut_fn(src.co().map(rmap_cl::<It>(sh)).collect::<Result<Vec<_>, u64>>(), show_res),
+            "map.lim" => fut_fn(src.co().map(rmap_cl::<It>(sh)).limit(lim).collect::<Result<Vec<_>, u64>>(), show_res),
+            "lim.map" => fut_fn(src.co().limit(lim).map(rmap_cl::<It>(sh)).collect::<Result<Vec<_>, u64>>(), show_res),
+            "enum.map" => fut_fn(src.co().enumerate().map(rmap_cl::<(usize, It)>(sh)).collect::<Result<Vec<_>, u64>>(), show_res),
+            "map.take" => fut_fn(src.co().map(rmap_cl::<It>(sh)).take(take).collect::<Result<Vec<_>, u64>>(), show_res),
+            "lim.enum.map" => fut_fn(src.co().limit(lim).enumerate().map(rmap_cl::<(usize, It)>(sh)).collect::<Result<Vec<_>, u64>>(), show_res),
+            s => panic!("rcol stack {s}"),
+        };
+    }
     match stack {
         "" => terminal!(term, src.co(), sh),
         "lim" => terminal!(term, src.co().limit(lim), sh),
